@@ -24,7 +24,7 @@ from ufl.corealg.traversal import unique_pre_traversal
 
 from ufv import elements as E
 from ufv import num as N
-from ufv.core import proved, undecided, violated
+from ufv.core import crash_text, deliberate, proved, undecided, violated
 from ufv.den import SpatialLayer, World, _cofactor, den, leibniz_det
 from ufv.drv import handler_for, registry_of, rule_case
 from ufv.nodes import templates
@@ -139,6 +139,8 @@ def build(run):
             try:
                 r = rs(o)
             except (ValueError, NotImplementedError, RuntimeError) as ex:
+                if not deliberate(ex):
+                    return violated(f"crash instead of a result or a refusal: {crash_text(ex)}", reproduced=True, backend="exec")
                 return proved("refused", sample=f"{tag}: refuses: {ex}"[:200])
             rank = len(o.ufl_shape)
             n = g if kind == "x" else t
@@ -225,6 +227,8 @@ def build(run):
             try:
                 r = apply_derivatives(apply_algebra_lowering(e))
             except (ValueError, NotImplementedError, RuntimeError) as ex:
+                if not deliberate(ex):
+                    return violated(f"crash instead of a result or a refusal: {crash_text(ex)}", reproduced=True, backend="exec")
                 return proved("refused", sample=f"{name}: refuses {ex}"[:200])
             except Exception as ex:  # noqa: BLE001
                 return violated(f"{name}: expansion crashed: {type(ex).__name__}: {ex}", reproduced=True, replay={"expr": str(e)})
